@@ -190,11 +190,50 @@ def B1_B2_counts(rep, flow: Flow, want=("B1", "B2")):
         B1_zmask(rep, flow)
 
 
+def _zmask_builders(flow):
+    """the function(s) that actually build the Z-mask Pauli: the anchor itself, or helpers it delegates to (also
+    through `alias = functools.lru_cache(...)(helper)`), up to two hops"""
+    prog = flow.prog
+    root = prog.func(A_ZMASK)
+    m = root.module
+    seen, todo, out = set(), [(root, 0)], []
+    while todo:
+        f, d = todo.pop()
+        if f in seen:
+            continue
+        seen.add(f)
+        if any(isinstance(n, ast.Return) and n.value is not None and any(isinstance(c, ast.Call) and isinstance(c.func, ast.Name) and c.func.id == "Pauli" for c in ast.walk(n.value)) for n in ast.walk(f.node)):
+            out.append(f)
+            continue
+        if d >= 2:
+            continue
+        for n in ast.walk(f.node):
+            if isinstance(n, ast.Name) and isinstance(n.ctx, ast.Load):
+                r = prog.lookup_global(m, n.id)
+                if r and r[0] == "func":
+                    todo.append((r[1], d + 1))
+                elif r and r[0] == "var":
+                    for val in r[1].assigns.get(r[2], []):
+                        for x in ast.walk(val):
+                            if isinstance(x, ast.Name):
+                                rr = prog.lookup_global(r[1], x.id)
+                                if rr and rr[0] == "func":
+                                    todo.append((rr[1], d + 1))
+    return out
+
+
 def B1_zmask(rep, flow):
-    f = flow.prog.func(A_ZMASK)
+    builders = _zmask_builders(flow)
+    if not builders:
+        raise AnalysisError(f"{A_ZMASK}: no `return Pauli((z, x))` found in it or in the helpers it delegates to (anchor vanished)")
+    for f in builders:
+        _B1_zmask_one(rep, flow, f)
+
+
+def _B1_zmask_one(rep, flow, f):
     intparam = f.params[1] if len(f.params) > 1 else None
     if intparam is None:
-        raise AnalysisError(f"{A_ZMASK}: signature changed")
+        raise AnalysisError(f"{f.fq}: signature changed")
     env = {}
 
     def q(e):
@@ -259,7 +298,7 @@ def B1_zmask(rep, flow):
                 if not (isinstance(xz, ast.Call) and isinstance(xz.func, ast.Attribute) and xz.func.attr == "zeros"):
                     rep.finding("B1", f"{A_ZMASK}:x", f"{pyfacts.where(f, c)}: the x part of the computational-basis mask is not all-zero [{ast.unparse(xz)}]")
     if not found:
-        raise AnalysisError(f"{A_ZMASK}: no `return Pauli((z, x))` found (anchor vanished)")
+        raise AnalysisError(f"{f.fq}: no `return Pauli((z, x))` found (anchor vanished)")
 
 
 def index_role(e, idxvar, valvar, listname):
@@ -352,8 +391,21 @@ def _evolve_direction(f, call):
     return "push" if schrodinger_of_R else "pullback"
 
 
+def _find_in_tomo(flow, pred):
+    """functions of the tomography module (the fitter method first) satisfying pred"""
+    m = flow.prog.modules.get(TOMO)
+    if m is None:
+        raise AnalysisError("module tomography vanished")
+    fs = sorted(m.all_funcs, key=lambda g: (g.fq != A_FITTER, g.fq))
+    return [g for g in fs if pred(g)]
+
+
 def W_fitter(rep, flow: Flow, want=("W3", "W4", "W5", "W6", "W7", "S1")):
-    f = flow.prog.func(A_FITTER)
+    zname0 = A_ZMASK.split(".")[-1]
+    cands = _find_in_tomo(flow, lambda g: any(isinstance(n, ast.For) and any(isinstance(c, ast.Call) and isinstance(c.func, ast.Name) and c.func.id == zname0 for c in ast.walk(n)) for n in ast.walk(g.node)))
+    if len(cands) != 1:
+        raise AnalysisError(f"{TOMO}: expected exactly one function with a mask loop calling {zname0}, found {[g.fq for g in cands]}")
+    f = cands[0]
     R = rep.rules
     if "W4" in want:
         rep.rule("W4", "the reported Pauli is the Z mask pulled back through the readout (R^dagger Z R) and its sign is read after pushing it forward again (R P R^dagger); effective direction = (frame, inversion parity of the circuit argument)", floor=2)
@@ -396,10 +448,16 @@ def W_fitter(rep, flow: Flow, want=("W3", "W4", "W5", "W6", "W7", "S1")):
         if isinstance(st, ast.Assign) and isinstance(st.targets[0], ast.Attribute) and st.targets[0].attr == "phase" and isinstance(st.targets[0].value, ast.Name) \
                 and isinstance(st.value, ast.Constant) and st.value.value == 0:
             phase_reset.setdefault(st.targets[0].value.id, []).append(i)
-    if zcall is None or ecall is None or store is None or len(evolves) != 2:
-        raise AnalysisError(f"{A_FITTER}: mask loop shape outside the vocabulary (zmask call {bool(zcall)}, estimator call {bool(ecall)}, dictionary store {bool(store)}, {len(evolves)} evolve calls)")
+    if zcall is None or ecall is None or store is None or len(evolves) not in (1, 2):
+        raise AnalysisError(f"{f.fq}: mask loop shape outside the vocabulary (zmask call {bool(zcall)}, estimator call {bool(ecall)}, dictionary store {bool(store)}, {len(evolves)} evolve calls)")
     zvar = zcall[1].targets[0].id if isinstance(zcall[1], ast.Assign) and isinstance(zcall[1].targets[0], ast.Name) else None
-    (i1, t1, r1, d1, c1), (i2, t2, r2, d2, c2) = evolves
+    one_evolve = len(evolves) == 1
+    if one_evolve:
+        # shape B: the sign is the phase of the pulled-back Pauli itself (R^dagger Z R = +/- P), read before the reset
+        (i1, t1, r1, d1, c1) = evolves[0]
+        (i2, t2, r2, d2, c2) = (i1, t1, t1, "push", c1)
+    else:
+        (i1, t1, r1, d1, c1), (i2, t2, r2, d2, c2) = evolves
     if "W4" in R:
         if d1 is None or d2 is None:
             raise AnalysisError(f"{A_FITTER}: evolve direction not resolvable (frame / circuit argument outside the vocabulary)")
@@ -409,7 +467,15 @@ def W_fitter(rep, flow: Flow, want=("W3", "W4", "W5", "W6", "W7", "S1")):
             rep.finding("W4", f"{A_FITTER}:evolve1:direction", f"{pyfacts.where(f, c1)}: the Z mask is conjugated as R Z R^dagger; the operator measured by 'readout then Z' is R^dagger Z R [{pyfacts.norm_stmt(c1)}]")
         else:
             rep.ok("W4", 1, nontrivial="evolve1", sample=f"{pyfacts.norm_stmt(c1)} = R^dagger Z R")
-        if r2 != t1:
+        if one_evolve:
+            # the phase must be read between the evolve and its reset
+            reads = [i for i, st in enumerate(body) if i1 < i <= store[0] and any(isinstance(x, ast.Attribute) and x.attr == "phase" and isinstance(x.ctx, ast.Load) and isinstance(x.value, ast.Name) and x.value.id == t1 for x in ast.walk(st))]
+            resets = phase_reset.get(t1, [])
+            if reads and (not resets or min(reads) < min(resets) or (min(reads) == store[0] and not resets)):
+                rep.ok("W4", 1, nontrivial="evolve-sign", sample=f"sign = phase of {pyfacts.norm_stmt(c1)} read before the reset")
+            else:
+                rep.finding("W4", f"{A_FITTER}:sign-source", f"{pyfacts.where(f, c1)}: with a single evolve the sign must be the phase of the pulled-back Pauli read BEFORE it is reset; it is read {'after the reset' if reads else 'nowhere'}")
+        elif r2 != t1:
             rep.finding("W4", f"{A_FITTER}:evolve2:receiver", f"{pyfacts.where(f, c2)}: the sign is not computed from the reported Pauli [{pyfacts.norm_stmt(c2)}]")
         elif d2 != "push":
             rep.finding("W4", f"{A_FITTER}:evolve2:direction", f"{pyfacts.where(f, c2)}: the sign is read after conjugating the reported Pauli in the same direction again instead of pushing it forward through the readout [{pyfacts.norm_stmt(c2)}]")
@@ -445,6 +511,9 @@ def W_fitter(rep, flow: Flow, want=("W3", "W4", "W5", "W6", "W7", "S1")):
         ce = consteval.CE(flow.prog)
         evar = ecall[1].targets[0].id if isinstance(ecall[1], ast.Assign) and isinstance(ecall[1].targets[0], ast.Name) else None
         table = {}
+        # local definitions the stored value goes through (e.g. `sign = -1 if p.phase == 2 else 1`), in statement order
+        chain = [st for i, st in enumerate(body) if i2 < i < store[0] and isinstance(st, ast.Assign) and isinstance(st.targets[0], ast.Name)
+                 and any(isinstance(x, ast.Attribute) and x.attr == "phase" for x in ast.walk(st.value)) and st is not ecall[1]]
         for ph in (0, 2):
             inst = consteval.Instance(flow.prog.cls("tomography.ReadoutInfo"))
             inst.attrs["phase"] = ph
@@ -452,6 +521,8 @@ def W_fitter(rep, flow: Flow, want=("W3", "W4", "W5", "W6", "W7", "S1")):
             if evar:
                 env[evar] = 1
             try:
+                for st in chain:
+                    env[st.targets[0].id] = ce.ev(st.value, env, f)
                 table[ph] = ce.ev(store[2], env, f)
             except consteval.CERaise as ex:
                 table[ph] = f"raise {ex.etype}"
